@@ -475,7 +475,13 @@ pub struct EvalState<'a> {
     // Used to check for circular variable references
     // Vec - likely to be few vars, and need stack behaviour
     checked_vars: Vec<String>,
+    // Current nesting depth of the expression being evaluated
+    depth: usize,
 }
+
+/// Maximum nesting (parentheses, function calls, unary minus, variable
+/// indirection) of an expression; bounds the parser's recursion.
+const EXPR_DEPTH_LIMIT: usize = 100;
 
 impl<'a> EvalState<'a> {
     fn new(
@@ -488,7 +494,22 @@ impl<'a> EvalState<'a> {
             index: 0,
             context,
             checked_vars: Vec::from(checked_vars),
+            depth: 0,
         }
+    }
+
+    fn enter(&mut self) -> Result<()> {
+        self.depth += 1;
+        if self.depth + self.checked_vars.len() > EXPR_DEPTH_LIMIT {
+            return Err(SvgdxError::ParseError(format!(
+                "Expression nesting exceeds limit {EXPR_DEPTH_LIMIT}"
+            )));
+        }
+        Ok(())
+    }
+
+    fn leave(&mut self) {
+        self.depth -= 1;
     }
 
     /// Peek the next token without advancing
@@ -742,6 +763,13 @@ fn factor(eval_state: &mut EvalState) -> Result<ExprValue> {
 }
 
 fn primary(eval_state: &mut EvalState) -> Result<ExprValue> {
+    eval_state.enter()?;
+    let result = primary_inner(eval_state);
+    eval_state.leave();
+    result
+}
+
+fn primary_inner(eval_state: &mut EvalState) -> Result<ExprValue> {
     match eval_state.next() {
         Some(Token::Number(x)) => Ok(ExprValue::Number(x)),
         Some(Token::String(s)) => Ok(ExprValue::String(s)),
